@@ -870,6 +870,9 @@ func (g *vPLRig) runBehaviour(bi int, b vPLBeh, tw *vTraceWriter) {
 			}
 			emit(vObj{"a": "Coalesce", "d": st.D, "seq": st.Seq})
 		case "Tick":
+			if g.pendingLen() == 0 {
+				return false // nothing waits (the model's Tick needs a waiting entry): the real system left the scripted path
+			}
 			g.tick()
 			emit(vObj{"a": "Tick"})
 		case "Abandon":
